@@ -159,6 +159,9 @@ CANNED_PROSE = [
     # 'section' inside an ordinary word, a number after it
     'Beginning at the intersection 50 feet north of the fence',
     'the bisect 12 rods wide',
+    # words that merely begin like 'Section'
+    'Second Addition, Lot 4', 'the Secondary channel and its banks',
+    'Sector 7 of the old survey',
 ]
 
 
@@ -229,7 +232,7 @@ _TWP_LOOKALIKE = re.compile(
     r"\d{1,3}[\s.,\-–—]*(n|s)[a-z]{0,5}[\s.,\-–—;|_~]*(r[a-z]{0,6})?"
     r"[\s.,\-–—]*\d", re.I)
 _FORBIDDEN = re.compile(
-    r"((?<![a-z])sec|§|\bT[\s.\-]*\d|\bR[\s.\-]*\d|P\.?\s*M\.?\b|merid|"
+    r"((?<![a-z])(sections?|sects?|secs?|secions?|secitons?|sectons?|sectns?|secns?)(?![a-z])|§|\bT[\s.\-]*\d|\bR[\s.\-]*\d|P\.?\s*M\.?\b|merid|"
     r"\btownship\b|\btwp|\brange\b|\brge)", re.I)
 _SEP_EDGE = ",;:-–—\t\n ."
 
